@@ -932,8 +932,20 @@ func zooPaloma() []ZooMsg {
 				m := &palomatypes.MsgAddStatusUpdate{Status: h.Str("relayed"), Level: palomatypes.MsgAddStatusUpdate_LEVEL_INFO,
 					Args:     []palomatypes.MsgAddStatusUpdate_KeyValuePair{{Key: h.Str("k"), Value: h.Str("v")}},
 					Metadata: FAMeta(actor.Addr, actor.Addr)}
+				// the number of key/value pairs is sender-controlled too
+				if n := []int{1, 0, 2, 16, 17, 40}[rng.Intn(6)]; n != 1 {
+					m.Args = nil
+					for i := 0; i < n; i++ {
+						m.Args = append(m.Args, palomatypes.MsgAddStatusUpdate_KeyValuePair{Key: fmt.Sprintf("k%d", i), Value: h.Str("v")})
+					}
+				}
 				if hostile {
 					m.Level = palomatypes.MsgAddStatusUpdate_Level([]int32{-1, 3, 1 << 30, -(1 << 31)}[rng.Intn(4)])
+					if rng.Intn(3) == 0 {
+						for i := 0; i < 300; i++ {
+							m.Args = append(m.Args, palomatypes.MsgAddStatusUpdate_KeyValuePair{Key: h.Str("k"), Value: h.Str("v")})
+						}
+					}
 				}
 				return m
 			},
